@@ -266,7 +266,7 @@ def strategy(tier):
         "style": st.integers(0, 3),
         "with_str": st.booleans(),
         "joined": st.sampled_from([False, False, True]),
-        "flags": st.just({}),
+        "flags": st.sampled_from([{}, {}, {"interim": 1}]),
     })
 
 
